@@ -1,5 +1,7 @@
 import ServiceModel.Keys.Scans
 import ServiceModel.Keys.ModelIds
+import ServiceModel.Keys.Examples
+import ServiceModel.Proofs.IssueSpec
 /-!
 # C18 — Identifiers and store keys are unambiguous
 
@@ -9,7 +11,7 @@ from `types/keys.go`, `types/invocation.go` and `keeper/*.go` on every run of th
 
 Hypotheses that appear below:
 * `BechOK bech` — `sdk.AccAddress.String()` is injective and its text has no `0x00` byte;
-* `WF sh e` — the fields have the shapes of `Keys.sh`: names and denominations without `0x00`,
+* `WFEnv sh e` — the fields have the shapes of `Keys.sh`: names and denominations without `0x00`,
   owners and consumers 20 bytes (E1), context ids 40, request ids 58 bytes, tx hashes 32 bytes,
   providers of ANY length;
 * integer ranges of the Go types.
@@ -116,6 +118,47 @@ theorem id_byte_order_is_model_order :
     rw [Bool.eq_iff_iff, lexLe_iff _ _ (by rw [encReq_length, encReq_length]), fromBE_encReq a ha, fromBE_encReq b hb,
       ReqId.le_iff_num a b ha hb]
 
+/-- A request's id records its position: the `k`-th request written when a batch is issued
+    (`issuedPairs … 0` is what `InitiateRequests` writes, see `issueReqs_reqs`; the issue event lists
+    the requests in this order, C06 `issued_requests_are_exactly`) goes to the `k`-th provider and has
+    the id (context, new batch counter, current height, `k`); decoding its bytes with
+    `SplitRequestID` returns exactly these four. -/
+theorem request_id_records_position (c : CtxId) (x : Ctx) (height : Int) (el : List (Addr × Nat)) (k : Nat)
+    (hk : k < el.length)
+    (hr : ReqId.InRange { ctx := c, batch := x.batch + 1, height := height.toNat, index := k }) :
+    ∃ q, (issuedPairs c x height el 0)[k]? =
+        some ({ ctx := c, batch := x.batch + 1, height := height.toNat, index := k }, q) ∧
+      q.prov = (el[k]).1 ∧
+      splitReqId (encReq { ctx := c, batch := x.batch + 1, height := height.toNat, index := k }) =
+        some (encCtx c, x.batch + 1, (height.toNat : Int), (k : Int)) := by
+  have hpos : ∀ (el : List (Addr × Nat)) (i k : Nat) (hk : k < el.length),
+      ∃ q, (issuedPairs c x height el i)[k]? =
+        some ({ ctx := c, batch := x.batch + 1, height := height.toNat, index := i + k }, q) ∧ q.prov = (el[k]).1 := by
+    intro el
+    induction el with
+    | nil => intro i k hk; simp at hk
+    | cons hd t ih =>
+      intro i k hk
+      obtain ⟨p, price⟩ := hd
+      cases k with
+      | zero =>
+        exact ⟨{ prov := p, fee := if x.super then 0 else price, reqH := height, expH := height + x.timeout },
+          by simp [issuedPairs], rfl⟩
+      | succ k =>
+        obtain ⟨q, h1, h2⟩ := ih (i + 1) k (by simpa using hk)
+        refine ⟨q, ?_, by simpa using h2⟩
+        simp only [issuedPairs, List.getElem?_cons_succ, h1]
+        congr 3
+        omega
+  obtain ⟨q, h1, h2⟩ := hpos el 0 k hk
+  refine ⟨q, by simpa using h1, h2, ?_⟩
+  obtain ⟨hc, hb, hh, hi⟩ := hr
+  rw [encReq_eq_gen _ ⟨hc, hb, hh, hi⟩]
+  have hb' : x.batch + 1 < 2 ^ 64 := hb
+  have hh' : height.toNat < 2 ^ 63 := hh
+  have hi' : k < 2 ^ 15 := hi
+  exact split_gen_req _ _ _ _ (encCtx_length c) hb' (by omega) (by omega) (by omega) (by omega)
+
 /-! ## keys of different records never coincide -/
 
 /-- Keys of different record kinds never coincide: the 19 key builders start with pairwise
@@ -127,7 +170,7 @@ theorem record_kinds_disjoint (bech : Bytes → Bytes) :
 /-- Under the hypotheses `sh`, every key builder except `GetEarnedFeesKey` is injective in the
     fields it writes (`FieldsEq`: equal byte fields, equal integers modulo 2^64) … -/
 theorem key_builders_injective {bech : Bytes → Bytes} (hb : BechOK bech) (k : Fn) (hk : k ∈ keyBuilders)
-    (hne : k.layout ≠ GetEarnedFeesKey) (e₁ e₂ : Env) (w₁ : WF sh e₁) (w₂ : WF sh e₂) :
+    (hne : k.layout ≠ GetEarnedFeesKey) (e₁ e₂ : Env) (w₁ : WFEnv sh e₁) (w₂ : WFEnv sh e₂) :
     encode bech k.layout e₁ = encode bech k.layout e₂ ↔ FieldsEq k.layout e₁ e₂ := by
   have hall : keyBuilders.all (fun k => k.layout == GetEarnedFeesKey || decodable sh k.layout) = true := by decide
   have := List.all_eq_true.mp hall k hk
@@ -147,19 +190,19 @@ theorem earnedFeesKey_injective_fixed_denom (bech : Bytes → Bytes) (e₁ e₂ 
 
 /-- … or once providers have 20 bytes. -/
 theorem earnedFeesKey_injective_provider20 {bech : Bytes → Bytes} (hb : BechOK bech) (e₁ e₂ : Env)
-    (w₁ : WF shProv20 e₁) (w₂ : WF shProv20 e₂) :
+    (w₁ : WFEnv shProv20 e₁) (w₂ : WFEnv shProv20 e₂) :
     encode bech GetEarnedFeesKey e₁ = encode bech GetEarnedFeesKey e₂ ↔ FieldsEq GetEarnedFeesKey e₁ e₂ :=
   key_injective hb GetEarnedFeesKey (by decide) e₁ e₂ w₁ w₂
 
 /-- NEGATIVE: with providers of any length and two denominations the earned-fees key is ambiguous:
     (provider `01`, denom `stake`) and (provider `01 73`, denom `take`) have the same key. -/
 theorem earnedFeesKey_needs_fixed_denom (bech : Bytes → Bytes) :
-    ∃ e₁ e₂, WF sh e₁ ∧ WF sh e₂ ∧ encode bech GetEarnedFeesKey e₁ = encode bech GetEarnedFeesKey e₂ ∧
+    ∃ e₁ e₂, WFEnv sh e₁ ∧ WFEnv sh e₂ ∧ encode bech GetEarnedFeesKey e₁ = encode bech GetEarnedFeesKey e₂ ∧
       e₁.b F.provider ≠ e₂.b F.provider :=
   ⟨((Env.default sh).setB F.provider [0x01]).setB F.denom [0x73, 0x74, 0x61, 0x6b, 0x65],
    ((Env.default sh).setB F.provider [0x01, 0x73]).setB F.denom [0x74, 0x61, 0x6b, 0x65],
-   WF_setB (WF_setB (WF_default sh) _ _ (by decide)) _ _ (by decide),
-   WF_setB (WF_setB (WF_default sh) _ _ (by decide)) _ _ (by decide), rfl, by decide⟩
+   WFEnv_setB (WFEnv_setB (WFEnv_default sh) _ _ (by decide)) _ _ (by decide),
+   WFEnv_setB (WFEnv_setB (WFEnv_default sh) _ _ (by decide)) _ _ (by decide), rfl, by decide⟩
 
 /-- `GetOwnerEarnedFeesKey(owner, denom)` ignores its `denom`: an owner has ONE earnings record,
     whatever the denomination (sound only because fees are paid in one denomination). -/
@@ -170,23 +213,23 @@ theorem ownerEarnedFeesKey_ignores_denom (bech : Bytes → Bytes) (e : Env) (d :
 /-- NEGATIVE: without E1 (owners of any length) `GetOwnerProviderKey(owner, provider)` =
     `0x05 ‖ owner ‖ provider` is ambiguous: (owner `01`, provider `02 03`) vs (owner `01 02`, provider `03`). -/
 theorem ownerProviderKey_needs_owner20 (bech : Bytes → Bytes) :
-    ∃ e₁ e₂, WF shNoE1 e₁ ∧ WF shNoE1 e₂ ∧ encode bech GetOwnerProviderKey e₁ = encode bech GetOwnerProviderKey e₂ ∧
+    ∃ e₁ e₂, WFEnv shNoE1 e₁ ∧ WFEnv shNoE1 e₂ ∧ encode bech GetOwnerProviderKey e₁ = encode bech GetOwnerProviderKey e₂ ∧
       e₁.b F.owner ≠ e₂.b F.owner :=
   ⟨((Env.default shNoE1).setB F.owner [0x01]).setB F.provider [0x02, 0x03],
    ((Env.default shNoE1).setB F.owner [0x01, 0x02]).setB F.provider [0x03],
-   WF_setB (WF_setB (WF_default _) _ _ (by decide)) _ _ (by decide),
-   WF_setB (WF_setB (WF_default _) _ _ (by decide)) _ _ (by decide), rfl, by decide⟩
+   WFEnv_setB (WFEnv_setB (WFEnv_default _) _ _ (by decide)) _ _ (by decide),
+   WFEnv_setB (WFEnv_setB (WFEnv_default _) _ _ (by decide)) _ _ (by decide), rfl, by decide⟩
 
 /-- NEGATIVE: without E1 `GetOwnerServiceBindingKey(owner, serviceName, provider)` =
     `0x03 ‖ owner ‖ serviceName ‖ 0x00 ‖ provider` is ambiguous: (owner `01`, name `ab`) vs (owner `01 61`, name `b`). -/
 theorem ownerServiceBindingKey_needs_owner20 (bech : Bytes → Bytes) :
-    ∃ e₁ e₂, WF shNoE1 e₁ ∧ WF shNoE1 e₂ ∧
+    ∃ e₁ e₂, WFEnv shNoE1 e₁ ∧ WFEnv shNoE1 e₂ ∧
       encode bech GetOwnerServiceBindingKey e₁ = encode bech GetOwnerServiceBindingKey e₂ ∧
       e₁.b F.owner ≠ e₂.b F.owner :=
   ⟨((Env.default shNoE1).setB F.owner [0x01]).setB F.serviceName [0x61, 0x62],
    ((Env.default shNoE1).setB F.owner [0x01, 0x61]).setB F.serviceName [0x62],
-   WF_setB (WF_setB (WF_default _) _ _ (by decide)) _ _ (by decide),
-   WF_setB (WF_setB (WF_default _) _ _ (by decide)) _ _ (by decide), rfl, by decide⟩
+   WFEnv_setB (WFEnv_setB (WFEnv_default _) _ _ (by decide)) _ _ (by decide),
+   WFEnv_setB (WFEnv_setB (WFEnv_default _) _ _ (by decide)) _ _ (by decide), rfl, by decide⟩
 
 /-! ## every prefix scan returns exactly the records of its subject -/
 
@@ -227,7 +270,7 @@ theorem bindings_scan_exact {bech : Bytes → Bytes} (hb : BechOK bech) (name na
       encode bech GetServiceBindingKey (((Env.default sh).setB F.serviceName name').setB F.provider provider)
     ↔ name = name' := by
   rw [scanOK_sound hb GetBindingsSubspace GetServiceBindingKey (by decide) _ _
-    (WF_setName (WF_default sh) _ hn) (WF_setProvider (WF_setName (WF_default sh) _ hn') _)]
+    (WFEnv_setName (WFEnv_default sh) _ hn) (WFEnv_setProvider (WFEnv_setName (WFEnv_default sh) _ hn') _)]
   simp [FieldsEq, GetBindingsSubspace, Env.setB, F.serviceName, F.provider]
 
 /-- The earned-fees scan spelled out (repository fix D6): the record `(provider', denom)` passes the
@@ -242,7 +285,7 @@ theorem earnedFees_scan_exact_with_filter {bech : Bytes → Bytes} (hb : BechOK 
     ↔ provider = provider' := by
   have h := scanFilteredOK_sound hb GetEarnedFeesSubspace GetEarnedFeesKey (by decide)
     ((Env.default sh).setB F.provider provider) (((Env.default sh).setB F.provider provider').setB F.denom denom)
-    (WF_setProvider (WF_default sh) _) (WF_setDenom (WF_setProvider (WF_default sh) _) _ hd)
+    (WFEnv_setProvider (WFEnv_default sh) _) (WFEnv_setDenom (WFEnv_setProvider (WFEnv_default sh) _) _ hd)
   have hsuf : encode bech (List.drop GetEarnedFeesSubspace.length GetEarnedFeesKey)
       (((Env.default sh).setB F.provider provider').setB F.denom denom) = denom := by
     simp [GetEarnedFeesSubspace, GetEarnedFeesKey, encode, Seg.val, Env.setB, F.denom]
@@ -253,12 +296,12 @@ theorem earnedFees_scan_exact_with_filter {bech : Bytes → Bytes} (hb : BechOK 
 /-- NEGATIVE (defect D6 before its repair): WITHOUT the filter the earned-fees scan is not exact for
     variable-length providers: the prefix of provider `01` matches the record of provider `01 02`. -/
 theorem earnedFees_scan_needs_filter (bech : Bytes → Bytes) :
-    ∃ e₁ e₂, WF sh e₁ ∧ WF sh e₂ ∧
+    ∃ e₁ e₂, WFEnv sh e₁ ∧ WFEnv sh e₂ ∧
       encode bech GetEarnedFeesSubspace e₁ <+: encode bech GetEarnedFeesKey e₂ ∧ e₁.b F.provider ≠ e₂.b F.provider :=
   ⟨(Env.default sh).setB F.provider [0x01],
    ((Env.default sh).setB F.provider [0x01, 0x02]).setB F.denom [0x73, 0x74, 0x61, 0x6b, 0x65],
-   WF_setB (WF_default sh) _ _ (by decide),
-   WF_setB (WF_setB (WF_default sh) _ _ (by decide)) _ _ (by decide),
+   WFEnv_setB (WFEnv_default sh) _ _ (by decide),
+   WFEnv_setB (WFEnv_setB (WFEnv_default sh) _ _ (by decide)) _ _ (by decide),
    ⟨[0x02, 0x73, 0x74, 0x61, 0x6b, 0x65], rfl⟩, by decide⟩
 
 /-- NEGATIVE: the three scans whose prefix ends in a raw owner address (`GetOwnerProvidersSubspace`,
@@ -268,21 +311,47 @@ theorem earnedFees_scan_needs_filter (bech : Bytes → Bytes) :
 theorem owner_scans_need_owner20 (bech : Bytes → Bytes) :
     (scanTable.filter (fun x => !(x.ok shNoE1))).map (·.sub) =
       [GetOwnerBindingsSubspace, GetOwnerProvidersSubspace, GetOwnerEarnedFeesSubspace] ∧
-    (∃ e₁ e₂, WF shNoE1 e₁ ∧ WF shNoE1 e₂ ∧
+    (∃ e₁ e₂, WFEnv shNoE1 e₁ ∧ WFEnv shNoE1 e₂ ∧
       encode bech GetOwnerProvidersSubspace e₁ <+: encode bech GetOwnerProviderKey e₂ ∧ e₁.b F.owner ≠ e₂.b F.owner) ∧
-    (∃ e₁ e₂, WF shNoE1 e₁ ∧ WF shNoE1 e₂ ∧
+    (∃ e₁ e₂, WFEnv shNoE1 e₁ ∧ WFEnv shNoE1 e₂ ∧
       encode bech GetOwnerEarnedFeesSubspace e₁ <+: encode bech GetOwnerEarnedFeesKey e₂ ∧ e₁.b F.owner ≠ e₂.b F.owner) ∧
-    (∃ e₁ e₂, WF shNoE1 e₁ ∧ WF shNoE1 e₂ ∧
+    (∃ e₁ e₂, WFEnv shNoE1 e₁ ∧ WFEnv shNoE1 e₂ ∧
       encode bech GetOwnerBindingsSubspace e₁ <+: encode bech GetOwnerServiceBindingKey e₂ ∧ e₁.b F.owner ≠ e₂.b F.owner) :=
   ⟨by decide,
    ⟨(Env.default shNoE1).setB F.owner [0x01], ((Env.default shNoE1).setB F.owner [0x01, 0x02]).setB F.provider [0x03],
-    WF_setB (WF_default _) _ _ (by decide), WF_setB (WF_setB (WF_default _) _ _ (by decide)) _ _ (by decide),
+    WFEnv_setB (WFEnv_default _) _ _ (by decide), WFEnv_setB (WFEnv_setB (WFEnv_default _) _ _ (by decide)) _ _ (by decide),
     ⟨[0x02, 0x03], rfl⟩, by decide⟩,
    ⟨(Env.default shNoE1).setB F.owner [0x01], (Env.default shNoE1).setB F.owner [0x01, 0x02],
-    WF_setB (WF_default _) _ _ (by decide), WF_setB (WF_default _) _ _ (by decide), ⟨[0x02], rfl⟩, by decide⟩,
+    WFEnv_setB (WFEnv_default _) _ _ (by decide), WFEnv_setB (WFEnv_default _) _ _ (by decide), ⟨[0x02], rfl⟩, by decide⟩,
    ⟨((Env.default shNoE1).setB F.owner [0x01]).setB F.serviceName [0x61],
     ((Env.default shNoE1).setB F.owner [0x01, 0x61]).setB F.serviceName [],
-    WF_setB (WF_setB (WF_default _) _ _ (by decide)) _ _ (by decide),
-    WF_setB (WF_setB (WF_default _) _ _ (by decide)) _ _ (by decide), ⟨[], rfl⟩, by decide⟩⟩
+    WFEnv_setB (WFEnv_setB (WFEnv_default _) _ _ (by decide)) _ _ (by decide),
+    WFEnv_setB (WFEnv_setB (WFEnv_default _) _ _ (by decide)) _ _ (by decide), ⟨[], rfl⟩, by decide⟩⟩
+
+/-! ## the hypotheses are satisfiable (non-vacuity) -/
+
+/-- `BechOK` has a model (two non-zero nibble bytes per byte): the key theorems are not vacuous. -/
+example : ∃ bech, BechOK bech := ⟨hexish, hexish_ok⟩
+
+/-- well-formed environments exist, with providers of any length (here 1 and 21 bytes) -/
+example : WFEnv sh (((Env.default sh).setB F.provider [0x01]).setB F.serviceName [0x61]) ∧
+    WFEnv sh ((Env.default sh).setB F.provider (List.replicate 21 0x07)) :=
+  ⟨WFEnv_setName (WFEnv_setProvider (WFEnv_default sh) _) _ (by decide), WFEnv_setProvider (WFEnv_default sh) _⟩
+
+/-- names that are prefixes of each other: the bindings scan of `a` does not return a binding of `ab`,
+    and does return the binding of `a` -/
+example :
+    ¬ (encode hexish GetBindingsSubspace ((Env.default sh).setB F.serviceName [0x61]) <+:
+        encode hexish GetServiceBindingKey (((Env.default sh).setB F.serviceName [0x61, 0x62]).setB F.provider [0x01])) ∧
+    (encode hexish GetBindingsSubspace ((Env.default sh).setB F.serviceName [0x61]) <+:
+        encode hexish GetServiceBindingKey (((Env.default sh).setB F.serviceName [0x61]).setB F.provider [0x01])) := by
+  constructor
+  · rw [bindings_scan_exact hexish_ok _ _ _ (by decide) (by decide)]; decide
+  · rw [bindings_scan_exact hexish_ok _ _ _ (by decide) (by decide)]
+
+/-- boundary values: the round trip at the extreme int64 / uint64 / int16 values -/
+example : splitReqId (genReqId (List.replicate 40 0xff) (2 ^ 64 - 1) (-2 ^ 63) (-2 ^ 15)) =
+    some (List.replicate 40 0xff, 2 ^ 64 - 1, -2 ^ 63, -2 ^ 15) :=
+  req_id_roundtrip _ _ _ _ (by simp) (by omega) (by omega) (by omega) (by omega) (by omega)
 
 end SM.C18
